@@ -684,6 +684,8 @@ impl PackageBuilder {
         }
 
         let uses_large_files = combined_file_sizes > u32::MAX.into();
+        #[cfg(feature = "verif-hooks")]
+        let uses_large_files = uses_large_files || crate::verif_hooks::force_large_files();
 
         // @todo: sort entries by path?
         // @todo: normalize path?
